@@ -121,6 +121,13 @@ def set_subscript(ip, st, obj, idx, v):
         f = ip.getattr(st, obj, "__setitem__")
         return ip.call(st, f, [idx, v])
     if isinstance(obj, DRef):
+        idx = st.force(idx)
+        if isinstance(idx, SAtom):
+            # `d[k] = v` with k one of finitely many constants (shapes.Atom asserts that k IS one of its domain): one
+            # path per constant the key can equal on this path, each with an ordinary constant-key store -- the same
+            # case split dict_get makes for a read.  (CPython: the key's value decides the slot; nothing else happens.)
+            dom = list(idx.domain)
+            idx = dom[st.choose([idx == dd for dd in dom])]
         if isinstance(idx, Sym):
             raise Unsupported("dict store with symbolic key")
         obj.d[idx] = v
@@ -1227,9 +1234,76 @@ def b_chr(ip, st, n):
 
 
 def b_next(ip, st, it, *default):
+    if isinstance(it, ListIter):
+        if default and not it.more(st):
+            return default[0]
+        return it.step(ip, st)
     if isinstance(it, ModelObj):
         return it.py_call(ip, st, "__next__", [], {})
     raise Unsupported("next() of a non-model iterator")
+
+
+class ListIter(ModelObj):
+    """`iter(<list or tuple>)` -- CPython's list / tuple iterator: (the sequence OBJECT, an index).  `next()` hands
+    out `seq[index]` and increments while `index < len(seq)` as the list is NOW (a list iterator sees items appended
+    after it was created); once it has raised StopIteration it stays exhausted, whatever is appended later (CPython
+    drops its reference to the list).  `for x in it` advances it one item per iteration and leaves it where a `break`
+    stopped (Interp.s_For); `list(it)`, `tuple(it)`, `lst.extend(it)`, a comprehension over it drain what is left.
+    `iter(it)` is `it`.  The index is a concrete number (it only moves by these operations), so a path forks only on
+    "is there another item" when the length is symbolic.  An iterator is always true.
+    Cross-check against CPython on concrete lists: contracts/C20_shards.py static check
+    `list-iterator-model-agrees-with-cpython`."""
+
+    is_iterator = True
+
+    def __init__(self, src):
+        self.src = src  # LRef (live list) or an immutable sequence value
+        self.pos = 0
+        self.done = False
+
+    def more(self, st):
+        if self.done:
+            return False
+        n = Q.seq_len(self.src)
+        more = (self.pos < n) if isinstance(n, int) else st.branch(V._cmp("<", self.pos, n))
+        if not more:
+            self.done = True
+        return more
+
+    def step(self, ip, st):
+        if not self.more(st):
+            _raise(StopIteration, "")
+        e = ip._iter_elem(self.src, self.pos)
+        self.pos += 1
+        return e
+
+    def py_call(self, ip, st, name, args, kwargs):
+        if name == "__next__" and not args and not kwargs:
+            return self.step(ip, st)
+        if name == "__iter__" and not args and not kwargs:
+            return self
+        raise Unsupported(f"method {name} of a list iterator")
+
+    def py_iter(self, ip, st):
+        """Drain: the items from the index on, as a sequence value; the iterator is exhausted afterwards."""
+        if self.done:
+            return ()
+        rest = get_subscript(ip, st, self.src, SSlice(self.pos, None, None))
+        self.done = True
+        return rest.seq if isinstance(rest, LRef) else rest
+
+
+def b_iter(ip, st, x, *sentinel):
+    if sentinel:
+        raise Unsupported("iter(callable, sentinel)")
+    x = st.force(x)
+    if isinstance(x, ListIter):
+        return x
+    if isinstance(x, (LRef, tuple)) or (isinstance(x, SSeq) and not getattr(x, "is_text", False)):
+        if isinstance(x, LRef) and Q.is_nested(x.seq):
+            raise Unsupported("iter() of a nested list")
+        return ListIter(x)
+    raise Unsupported(f"iter() of {type(x).__name__}")
 
 
 def b_id(ip, st, x):
@@ -1299,6 +1373,7 @@ TABLE = {
     contextlib.suppress: b_suppress,
     setattr: b_setattr,
     next: b_next,
+    iter: b_iter,
     __import__("itertools").chain: b_chain,
     functools.wraps: b_wraps,
 }
